@@ -546,6 +546,10 @@ def body():
         c.sample({"key": key, "line": {k: str(v)[:80] for k, v in line.items()}, "event": {k: str(v)[:80] for k, v in ev.items()}})
     for key, evs in execs[:1]:
         c.sample({"key": key, "events": [json.dumps({k: (v if not isinstance(v, str) or len(v) < 40 else "<%d>" % len(v)) for k, v in e.items()})[:300] for e in evs]})
+    # the command line tools as a user's session (tools/clilib.py, spec/Cli.tla): artefacts made by one tool, opened by another under right and wrong circumstances;
+    # the exit status is what a script sees
+    import clilib
+    clilib.judge_sessions(c, clilib.sessions(c, "C17", ['sm9'], "c17", [0, 1, 16, 4095, 4096, 4097, 10000] + ([] if c.quick else [8192, 65537, 1000000])), "c17")
     return c.finish(
         rule="schemes: master secrets 1, 2, N-2, N-1, random x identities of 1..1000 (thorough 8191) bytes x messages of 0..1000 bytes / plaintexts of 0..255 bytes; per signature: right / other identity / other message / "
              "other master / bit flips of the DER signature / boundary h / substituted S / reference-made signatures; per ciphertext: addressee, other identity's key, other claimed identity, other master, bit flips, "
